@@ -362,12 +362,12 @@ func (e *SpecEnv) Eval(x SExpr) SV {
 				if c, ok := p.(SCall); ok && c.Fn == "$multi" {
 					var ts []string
 					for _, a := range c.Args {
-						ts = append(ts, patTerm(ne.Eval(a)))
+						ts = append(ts, ne.patOf(a))
 					}
 					ps = append(ps, "("+strings.Join(ts, " ")+")")
 					continue
 				}
-				ps = append(ps, "("+patTerm(ne.Eval(p))+")")
+				ps = append(ps, "("+ne.patOf(p)+")")
 			}
 			bt = fmt.Sprintf("(! %s :pattern %s)", bt, strings.Join(ps, " :pattern "))
 		}
@@ -375,6 +375,17 @@ func (e *SpecEnv) Eval(x SExpr) SV {
 	}
 	e.fail("cannot evaluate %s", x)
 	return SV{}
+}
+
+// patOf: the pattern term of a trigger expression. has(m, k) evaluates to a conjunction (non-nil map and key in its
+// domain), which cannot be a pattern: its trigger is the domain lookup itself.
+func (e *SpecEnv) patOf(x SExpr) string {
+	if c, ok := x.(SCall); ok && c.Fn == "has" && len(c.Args) == 2 {
+		m, k := e.Eval(c.Args[0]), e.Eval(c.Args[1])
+		dom, _, _, _ := e.G.TE.MapHeaps(m.Typ)
+		return fmt.Sprintf("(select (select %s %s) %s)", e.Cur.Heap(dom), m.Term, k.Term)
+	}
+	return patTerm(e.Eval(x))
 }
 
 // patTerm: the term of a trigger expression; a struct location (s[i] of a struct-element slice, *p) is
